@@ -8,6 +8,7 @@ sys.path.insert(0, os.path.dirname(os.path.abspath(__file__)))
 import common  # noqa: E402
 
 CHECKS = {
+    "C01": "pprops",
     "C15": "c15",
 }
 
@@ -19,7 +20,11 @@ def main(argv):
     prop = argv[1]
     tier = common.tier_from_args(argv)
     try:
-        mod = importlib.import_module(CHECKS[prop])
+        if CHECKS[prop] == "pprops":
+            import pprops
+            mod = pprops.make(prop)
+        else:
+            mod = importlib.import_module(CHECKS[prop])
         if "--replay" in argv:
             return mod.replay(argv[argv.index("--replay") + 1])
         return mod.run(tier)
